@@ -199,8 +199,11 @@ def run(ctx):
             if x is not None and x != m and len(ctx.corr_broken) < 5:
                 ctx.corr_broken.append({"stream": "reserve/release-vs-rstep", "events": lines, "at": l, "real": x, "model": m})
                 break
+    stage_transport_group(ctx, drv, 60 if ctx.quick() else 1500)
     stage_concurrent(ctx)
-    ctx.coverage["rule"] = ("concurrent: 2-3 threads reserving/releasing on one node under the deterministic scheduler (scheduling points before "
+    ctx.coverage["rule"] = ("transport groups: requests handed out by the real TransportGroupIO.pull_force over 1-3 transport nodes (scripted free "
+                            "space, minima, limits, unknown free space; local / remote sources), every node's reserved total compared with "
+                            "Lean tgDispatch after each dispatch and checked zero when no transfer is left; ""concurrent: 2-3 threads reserving/releasing on one node under the deterministic scheduler (scheduling points before "
                             "every mutex acquisition and after every release): never over-committed, balance returns to zero, no failing "
                             "release; sequential: sequences of 2-8 events on one destination node: dispatch of a pull (real DefaultNodeIO.pull: sizes 0..400, free "
                             "space 50..10^6 or unknown, under-min / at-limit configurations) or completion of the oldest pull task by one of "
@@ -209,6 +212,143 @@ def run(ctx):
                             "oracles: never negative, zero when nothing is live, admission inequality. distinct = event sequence")
     from props.c06 import finish_search
     finish_search(ctx, ok)
+
+
+def stage_transport_group(ctx, drv, nseq):
+    """Transport groups: real `TransportGroupIO.pull_force` (its `fits` questions to every node, then the chosen node's
+    `pull`) and real pull tasks, on 1-3 transport nodes with scripted free space; the reserved total of *every* node is read
+    after each event and compared with Lean `tgDispatch`; oracles: nothing reserved when no transfer is queued or running,
+    never negative, a started transfer fitted on the node it was handed to."""
+    import alpenhorn.daemon.update as upd
+    from alpenhorn.scheduler import FairMultiFIFOQueue
+    from alpenhorn.io import default as dmod
+    from alpenhorn.io.default import DefaultNodeIO
+    import shutil
+    rng = ctx.rng
+    factor = DefaultNodeIO.reserve_factor
+    real_statvfs = os.statvfs
+    lines, exps, infos = [], [], []
+    with envmod.Env() as e:
+        for si in range(nseq):
+            w = worldmod.World(e)
+            db = w.db
+            for m in (db.StorageTransferAction, db.ArchiveFileCopyRequest, db.ArchiveFileImportRequest, db.ArchiveFileCopy,
+                      db.ArchiveFile, db.ArchiveAcq, db.StorageNode, db.StorageGroup):
+                m.delete().execute()
+            shutil.rmtree(os.path.join(e.tmp, "roots"), ignore_errors=True)
+            with dmod._mutex:
+                dmod._reserved_bytes.clear()
+            gs, gr, gt = w.group("gs"), w.group("gr"), w.group("gt", io_class="Transport")
+            src = w.node("src", gs, stype="F")
+            rem = w.node("rem", gr, host="h2", stype="F", address="a", username="u")
+            acq = w.acq("acq")
+            tn, bav = [], {}
+            for k in range(rng.randint(1, 3)):
+                bk = rng.choice([None, 0, 1, 2, 2, 10, 10])                 # KiB free as the file system reports
+                nd = w.node(f"t{k}", gt, stype="T", avail_kib=rng.choice([None, bk, bk, 5, 50]) if bk is not None else None,
+                            min_kib=rng.choice([0, 0, 0, 3]), max_kib=rng.choice([None, None, None, 10 ** 6]))
+                tn.append(nd)
+                bav[nd.root] = None if bk is None else bk * 1024
+            unknown = {nd.id for nd in tn if bav[nd.root] is None}
+
+            class SV:
+                def __init__(self, b):
+                    self.f_bavail, self.f_bsize = b, 1
+
+            def fake_statvfs(path, bav=bav):
+                b = bav.get(str(path))
+                return SV(b) if b is not None else real_statvfs(path)
+            os.statvfs = fake_statvfs
+            os.environ["PATH"] = os.path.join(wharness.FAKE, "none")
+
+            class SC:          # what run_one needs
+                pass
+            sc = SC()
+            sc.q = q = FairMultiFIFOQueue()
+
+            def reserved():
+                with dmod._mutex:
+                    return {nd.id: dmod._reserved_bytes.get(nd.name, 0) for nd in tn}
+            evs = []
+            nf = 0
+            try:
+                for ev in range(rng.randint(2, 8)):
+                    if q.qsize and rng.random() < 0.45:
+                        e.set_host("h1")
+                        try:
+                            run_one(sc)
+                        except Exception as ex:  # noqa
+                            ctx.violation("transport:task-raised", f"a pull task into a Transport group raised {type(ex).__name__}: {ex}",
+                                          {"kind": "transport-reserve", "events": evs})
+                            break
+                        evs.append(f"a transfer task ran; reserved now {reserved()}")
+                    else:
+                        nf += 1
+                        size = rng.choice([0, 100, 400, 600, 1500, 6000])
+                        local = rng.random() < 0.85
+                        how = rng.choice(["success", "success", "transportFailed"])
+                        f = w.file(acq, f"f{nf}.dat", bytes(rng.getrandbits(8) for _ in range(size)))
+                        s_ = src if local else rem
+                        w.copy(f, s_, has="Y", **({"on_disk": None} if how == "transportFailed" else {}))
+                        rq = db.ArchiveFileCopyRequest.create(file=f, node_from=s_, group_to=gt)
+                        e.set_host("h1")
+                        uns = [upd.UpdateableNode(q, db.StorageNode.get(id=nd.id)) for nd in tn]
+                        for un in uns:
+                            if un.db.id in unknown:
+                                un.io.bytes_avail = lambda fast=False: None
+                        ug = upd.UpdateableGroup(queue=q, group=db.StorageGroup.get(id=gt.id), nodes=uns, idle=True)
+                        rb = reserved()
+                        recs = []
+                        for un in uns:
+                            nd = un.db
+                            recs.append((nd.id, None if nd.avail_gb is None else round(nd.avail_gb * 2 ** 20), bool(nd.under_min),
+                                         bool(nd.check_over_max()), bav[nd.root], rb[nd.id]))
+                        picked = []
+                        for un in uns:
+                            orig = un.io.pull
+                            un.io.pull = (lambda r, _o=orig, _i=un.db.id: (picked.append(_i), _o(r))[1])
+                        qs = q.qsize
+                        ug.io.pull_force(db.ArchiveFileCopyRequest.get(id=rq.id))
+                        created = q.qsize > qs
+                        ra = reserved()
+                        line = (f"tgd {factor} {size} {int(local)} " +
+                                ",".join(f"{i}:{'-' if a is None else a}:{int(u)}:{int(o)}:{'-' if b is None else b}:{r}" for i, a, u, o, b, r in recs))
+                        lines.append(line)
+                        exps.append(f"{picked[0] if picked else '-'} {int(created)} {','.join(str(ra[nd.id]) for nd in tn)}")
+                        infos.append(si)
+                        evs.append(f"request for {size} bytes ({'local' if local else 'remote'} source): handed to {picked or None}, "
+                                   f"task created={created}; nodes (id, availKiB, underMin, overMax, bytes free, reserved before) {recs}; "
+                                   f"reserved now {ra}")
+                        ctx.count(f"transport-dispatch:{'admitted' if created else 'handed-but-refused' if picked else 'no-node'}")
+                        if created and picked:
+                            me = [r for r in recs if r[0] == picked[0]][0]
+                            if me[2] or me[3] or (me[4] is not None and factor * size > me[4] - me[5]):
+                                ctx.violation("transport:admit", f"transfer of {size} bytes started on transport node {me[0]} with "
+                                              f"under_min={me[2]}, at_limit={me[3]}, free={me[4]}, reserved before={me[5]}",
+                                              {"kind": "transport-reserve", "events": evs})
+                    r_ = reserved()
+                    if any(v < 0 for v in r_.values()):
+                        ctx.violation("transport:negative", f"reserved totals {r_}", {"kind": "transport-reserve", "events": evs})
+                    if q.qsize + q.inprogress_size + q.deferred_size == 0 and any(r_.values()):
+                        ctx.violation("transport:leak", f"no transfer queued or running but bytes remain reserved on the group's nodes: {r_}",
+                                      {"kind": "transport-reserve", "events": evs})
+                        break
+                for _ in range(20):
+                    if not q.qsize:
+                        break
+                    run_one(sc)
+                r_ = reserved()
+                if q.qsize + q.inprogress_size + q.deferred_size == 0 and any(r_.values()):
+                    ctx.violation("transport:leak", f"every transfer has ended but bytes remain reserved on the group's nodes: {r_}",
+                                  {"kind": "transport-reserve", "events": evs})
+            finally:
+                os.statvfs = real_statvfs
+                os.environ["PATH"] = "/usr/local/bin:/usr/bin:/bin"
+            ctx.case(("transport-group", tuple(evs)), nontrivial=len(tn) > 1, sample={"events": evs} if si == 1 else None)
+    outs = drv.batch(lines)
+    for l, x, o in zip(lines, exps, outs):
+        if x != o and len(ctx.corr_broken) < 5:
+            ctx.corr_broken.append({"stream": "transport-dispatch-vs-tgDispatch", "at": l, "real": x, "model": o})
 
 
 def stage_concurrent(ctx):
